@@ -97,6 +97,10 @@ func c13(r *Report) propMeta {
 		{Op: "EQL", A: []string{"^phi", "call:TSSKeeper.RequestSigning", "field:CurrentGroup.GroupID"}, B: []string{"const:0"}, Want: false, Desc: "currentGroupSigningID != 0"},
 		{Op: "EQL", A: []string{"^phi", "call:TSSKeeper.RequestSigning", "call:Keeper.GetIncomingGroupID"}, B: []string{"const:0"}, Want: false, Desc: "incomingGroupSigningID != 0"}}, 1)
 
+	r.TrustedBase("atomic-roots")
+	// the IBC request path charges fees inside PrepareRequest and relies on ibc-go's cache context for atomicity
+	r.Callers("prepare-request-roots", oK+"PrepareRequest", []string{oMS + "RequestData", oK + "OnRecvPacket"}, []string{oMS + "RequestData", oK + "OnRecvPacket"})
+
 	r.Rule("C13.R6", "error discipline on bank/distribution keepers")
 	r.ErrorsNotDropped("bank-errors", []string{"x/oracle", "x/bandtss", "x/tunnel", "x/restake", "x/feeds", "x/tss", "x/globalfee", "x/bank"}, []string{"BankKeeper.", "DistrKeeper.", "bankkeeper.", "StakingKeeper.Delegate"}, 15)
 
